@@ -6,6 +6,8 @@
    be read side by side.  PART 2 states property C16 as predicates on such a
    heap; they are what TLC evaluates both on the model's own results
    (MC_Avl.tla) and on structures dumped from the real code (TraceAvl.tla).
+   PART 3 is a one-pass evaluation of the same predicates (checked equal to
+   PART 2 by MC_Avl), needed because millions of heaps are judged.
 
    A tree value t is a record
        [root, left, right, parent, height, key]
